@@ -370,6 +370,98 @@ int main(int argc, char** argv) {
                     }
                     out("PV pts=" + std::to_string(pts) + " bad=" + std::to_string(bad) + info);
                 }
+                // Tape::getBase: a POINT-type tape on top, then queries anywhere in (and around) the root region
+                {
+                    std::vector<Tape::Handle> lv;            // innermost first, root excluded
+                    std::vector<int> lvbox;                  // -1 = point level, else index of the box
+                    Eigen::Vector3f lastlo, lasthi;
+                    for (size_t k = 1; k < chain.size(); ++k)
+                        if (chain[k] != chain[k - 1]) { lv.insert(lv.begin(), chain[k]); lvbox.insert(lvbox.begin(), (int)k - 1); }
+                    auto boxof = [&](int b, Eigen::Vector3f& l, Eigen::Vector3f& h) {
+                        l = Eigen::Vector3f(of_hex32(t[3 + 6 * b]), of_hex32(t[4 + 6 * b]), of_hex32(t[5 + 6 * b]));
+                        h = Eigen::Vector3f(of_hex32(t[6 + 6 * b]), of_hex32(t[7 + 6 * b]), of_hex32(t[8 + 6 * b])); };
+                    boxof(nb - 1, lastlo, lasthi);
+                    Eigen::Vector3f mid = 0.5f * (lastlo + lasthi);
+                    auto vp = ar.valueAndPush(mid, tape);
+                    Tape::Handle top = vp.second;
+                    if (top != tape) { lv.insert(lv.begin(), top); lvbox.insert(lvbox.begin(), -1); }
+                    std::string gl = "GL " + std::to_string(lv.size());
+                    for (size_t k = 0; k < lv.size(); ++k) {
+                        if (lvbox[k] < 0) { gl += " P 0 0 0 0 0 0"; continue; }
+                        Eigen::Vector3f l, h; boxof(lvbox[k], l, h);
+                        gl += " I " + hex32(l.x()) + " " + hex32(l.y()) + " " + hex32(l.z()) + " " + hex32(h.x()) + " " + hex32(h.y()) + " " + hex32(h.z());
+                    }
+                    out(gl);
+                    auto index_of = [&](const Tape::Handle& h) -> int {
+                        for (size_t k = 0; k < lv.size(); ++k) if (lv[k] == h) return (int)k;
+                        return (h == deck->tape) ? (int)lv.size() : -1; };
+                    Eigen::Vector3f olo, ohi; boxof(0, olo, ohi);
+                    Eigen::Vector3f ext = ohi - olo;
+                    std::mt19937 rng(31337);
+                    std::uniform_real_distribution<float> d01(0.0f, 1.0f);
+                    std::string gp = "GP", gr = "GR";
+                    int pts = 0, bad = 0; std::string info;
+                    for (int k = 0; k < 60; ++k) {
+                        Eigen::Vector3f p;
+                        int b = k % nb;                       // aim at the faces of box b
+                        Eigen::Vector3f bl, bh; boxof(b, bl, bh);
+                        for (int a = 0; a < 3; ++a) {
+                            float r = d01(rng);
+                            if (k < 20) p(a) = olo(a) - 0.2f * ext(a) + 1.4f * ext(a) * r;            // anywhere around the root box
+                            else {
+                                p(a) = bl(a) + (bh(a) - bl(a)) * r;                                    // inside box b ...
+                                if (a == (k / nb) % 3) {                                                // ... but beyond one face
+                                    float e2 = (bh(a) - bl(a)) * (0.05f + d01(rng));
+                                    p(a) = ((k / (3 * nb)) % 2) ? bh(a) + e2 : bl(a) - e2;
+                                }
+                            }
+                        }
+                        if (k % 7 == 3) p = (k % 2) ? bl : bh;                                        // exactly on a corner
+                        Tape::Handle h = top->getBase(p);
+                        gp += " " + hex32(p.x()) + "," + hex32(p.y()) + "," + hex32(p.z()) + ":" + std::to_string(index_of(h));
+                        float v0 = ar.value(p, *deck->tape);
+                        bool anynan = false;
+                        for (size_t s2 = 0; s2 < nslots; ++s2) if (std::isnan(ar.slot(s2))) anynan = true;
+                        if (anynan) continue;
+                        ++pts;
+                        float v1 = ar.value(p, *h);
+                        if (memcmp(&v0, &v1, 4) != 0) {
+                            if (!bad) info = " p=" + hex32(p.x()) + "," + hex32(p.y()) + "," + hex32(p.z()) + " base=" + hex32(v0) + " getBase=" + hex32(v1);
+                            ++bad;
+                        }
+                    }
+                    for (int k = 0; k < 24; ++k) {
+                        int b = k % nb;
+                        Eigen::Vector3f bl, bh; boxof(b, bl, bh);
+                        Eigen::Vector3f ql, qh;
+                        for (int a = 0; a < 3; ++a) {
+                            float u = d01(rng), w = d01(rng);
+                            float lo2 = bl(a) + (bh(a) - bl(a)) * std::min(u, w), hi2 = bl(a) + (bh(a) - bl(a)) * std::max(u, w);
+                            if (k % 3 == 1 && a == (k / 3) % 3) hi2 = bh(a) + 0.3f * (bh(a) - bl(a));   // sticks out of box b
+                            if (k % 3 == 2) { lo2 = bl(a); hi2 = bh(a); }                                // the box itself
+                            ql(a) = lo2; qh(a) = hi2;
+                        }
+                        Region<3> rg(ql.cast<double>(), qh.cast<double>());
+                        Tape::Handle h = top->getBase(rg);
+                        gr += " " + hex32(ql.x()) + "," + hex32(ql.y()) + "," + hex32(ql.z()) + "," + hex32(qh.x()) + "," + hex32(qh.y()) + "," + hex32(qh.z())
+                              + ":" + std::to_string(index_of(h));
+                        for (int j = 0; j < 5; ++j) {
+                            Eigen::Vector3f p(ql.x() + (qh.x() - ql.x()) * d01(rng), ql.y() + (qh.y() - ql.y()) * d01(rng), ql.z() + (qh.z() - ql.z()) * d01(rng));
+                            float v0 = ar.value(p, *deck->tape);
+                            bool anynan = false;
+                            for (size_t s2 = 0; s2 < nslots; ++s2) if (std::isnan(ar.slot(s2))) anynan = true;
+                            if (anynan) continue;
+                            ++pts;
+                            float v1 = ar.value(p, *h);
+                            if (memcmp(&v0, &v1, 4) != 0) {
+                                if (!bad) info = " region p=" + hex32(p.x()) + "," + hex32(p.y()) + "," + hex32(p.z()) + " base=" + hex32(v0) + " getBase=" + hex32(v1);
+                                ++bad;
+                            }
+                        }
+                    }
+                    out(gp); out(gr);
+                    out("GV pts=" + std::to_string(pts) + " bad=" + std::to_string(bad) + info);
+                }
             }
             else if (c == "pushpt") {
                 // pushpt h x y z : valueAndPush at a point
@@ -780,7 +872,7 @@ int main(int argc, char** argv) {
                 Evaluator eo(H(t[1])), ee(H(t[2]));
                 int nb = std::stoi(t[3]);
                 auto tape = eo.getDeck()->tape;
-                int pts = 0, gpts = 0, gbad = 0, fpts = 0, fbad = 0, ibad = 0, pbad = 0, ppts = 0, abad = 0;
+                int pts = 0, gpts = 0, gbad = 0, fpts = 0, fbad = 0, fmiss = 0, ibad = 0, pbad = 0, ppts = 0, abad = 0;
                 std::string info;
                 auto note = [&](const std::string& what, const Eigen::Vector3f& p) {
                     if (info.empty()) info = " first=" + what + "@" + hex32(p.x()) + "," + hex32(p.y()) + "," + hex32(p.z());
@@ -858,13 +950,45 @@ int main(int argc, char** argv) {
                                 }
                                 return true;
                             };
-                            if (!covered(fo, fe) || !covered(fe, fo)) { ++fbad; note("features", p); }
+                            bool missing = !covered(fe, fo);         // a feature of the plain tree is missing
+                            bool mismatch = missing;
+                            if (!mismatch && !covered(fo, fe)) {
+                                // the oracle tree reports more: each extra feature must at least be realisable,
+                                // i.e. be the smooth gradient of the plain tree at some nearby point
+                                std::mt19937 r2(99);
+                                std::uniform_real_distribution<float> dd(-1.0f, 1.0f);
+                                std::list<Eigen::Vector3f> nearby;
+                                for (float eps : {1e-3f, 3e-4f, 1e-4f}) for (int q = 0; q < 80; ++q) {
+                                    Eigen::Vector3f pq = p + eps * Eigen::Vector3f(dd(r2), dd(r2), dd(r2));
+                                    nearby.push_back(ee.deriv(pq).head<3>());
+                                }
+                                auto covered2 = [](const std::list<Eigen::Vector3f>& A, const std::list<Eigen::Vector3f>& B) {
+                                    for (auto& x : A) {
+                                        bool ok = false;
+                                        for (auto& y : B) if ((x - y).norm() <= 2e-2f * (1 + y.norm())) { ok = true; break; }
+                                        if (!ok) return false;
+                                    }
+                                    return true;
+                                };
+                                mismatch = !covered2(fo, nearby);
+                            }
+                            if (mismatch) {
+                                if (!fbad) {
+                                    std::ostringstream fs;
+                                    fs << " oracle_features=";
+                                    for (auto& f : fo) fs << "(" << f.x() << "," << f.y() << "," << f.z() << ")";
+                                    fs << " plain_features=";
+                                    for (auto& f : fe) fs << "(" << f.x() << "," << f.y() << "," << f.z() << ")";
+                                    info += fs.str();
+                                }
+                                ++fbad; if (missing) ++fmiss; note(missing ? "features-missing" : "features-spurious", p);
+                            }
                         }
                     }
                     tape = pushed;
                 }
                 out("OC pts=" + std::to_string(pts) + " gpts=" + std::to_string(gpts) + " gbad=" + std::to_string(gbad)
-                    + " fpts=" + std::to_string(fpts) + " fbad=" + std::to_string(fbad) + " ibad=" + std::to_string(ibad)
+                    + " fpts=" + std::to_string(fpts) + " fbad=" + std::to_string(fbad) + " fmiss=" + std::to_string(fmiss) + " ibad=" + std::to_string(ibad)
                     + " ppts=" + std::to_string(ppts) + " pbad=" + std::to_string(pbad) + " abad=" + std::to_string(abad) + info);
             }
             else if (c == "ivcheck") {
